@@ -1,7 +1,7 @@
 """C12 Teardown in any order is safe and releases everything."""
 import re
 
-from .kernel import (ExprBuilder, Loc, access_path, subexprs, variant_edges, is_local, rvalue_places)
+from .kernel import (ExprBuilder, Loc, access_path, subexprs, variant_edges, is_local, rvalue_places, table_rows, table_loop_complete)
 from . import families as fam
 from . import life
 
@@ -135,10 +135,18 @@ def r2_unmap_agreement(r, facts):
         ed = ExprBuilder(d, multi='phi')
         ums = d.calls_to('io_uring::munmap')
         want = 2 if adt.endswith('Shared') else 1
-        r.require(len(ums) == want, dpath + '/count', 'expected %d munmap call(s) in %s, found %d' % (want, dpath, len(ums)), d.where())
-        seen = set()
+        # one entry per unmapping: a munmap call, or a row of the table a munmap loop runs over
+        sites = []
         for loc, t in ums:
             p, ln = ed.operand(t['args'][0]), ed.operand(t['args'][1])
+            rp, rl = table_rows(p), table_rows(ln)
+            if rp is not None and rl is not None and len(rp) == len(rl) and table_loop_complete(d, loc):
+                sites += [(loc, a, b) for a, b in zip(rp, rl)]
+            else:
+                sites.append((loc, p, ln))
+        r.require(len(sites) == want, dpath + '/count', 'expected %d munmap call(s) in %s, found %d' % (want, dpath, len(sites)), d.where())
+        seen = set()
+        for loc, p, ln in sites:
             ap = access_path(p)
             fld = ap[1].split('.')[-1] if ap and ap[0][0] == 'arg' else None
             if not r.require(fld in fm, dpath + '/ptr', 'munmap pointer is not a field stored at creation: %s' % (p,), d.where(loc)):
